@@ -1,3 +1,18 @@
 import ZCV.Props.C16
 open ZCV.Props.C16
 #print axioms C16_stop_appends_own_entries
+#print axioms C16_loadTreeH_value
+#print axioms C16_handlers_postorder
+#print axioms C16_accepted_handlers
+#print axioms C16_text_handlers_postorder
+#print axioms C16_len
+#print axioms C16_text_len
+#print axioms C16_values_are_tree_values
+#print axioms C16_values_by_attribute
+#print axioms C16_top_values
+#print axioms C16_none_skipped
+#print axioms C16_call_exactly_once
+#print axioms C16_error_empty_log
+#print axioms C16_all_or_nothing
+#print axioms C16_refusals_are_configuration_errors
+#print axioms C16_call_ok_iff
